@@ -285,6 +285,15 @@ def run(case):
             if got[0] != 'ok' or got[1] != want:
                 if _plain(base[2]):
                     vio.append({'mech': 'key-include-differs', 'what': f'{key}: !include [..] -> {util.short(got[1:], 300)} but the merged content is {util.short(_plain(base[2]), 300)}; {what}'})
+            # the same below a priority tag: the files are merged with each other first (their own !force / !weak decide among
+            # them), the tag above the include only matters towards other stages - with nothing else around the values are the same
+            tag15 = '!force' if random.Random(util.sig(case['texts']) + 'p15').random() < 0.5 else '!weak'
+            master15 = os.path.join(mdir, 'master15.yaml')
+            write(master15, f'--- {tag15}\n{key}: !include [' + ', '.join(rel(mdir, p) for p in paths) + ']\n')
+            got15 = observe(lambda: Config.build(master15))
+            feats.append('variant_key_include_below_priority_tag')
+            if (got15[0] != 'ok' or got15[1] != want) and _plain(base[2]):
+                vio.append({'mech': 'key-include-below-priority-tag-differs', 'what': f'{tag15} {{{key}: !include [..]}} -> {util.short(got15[1:], 300)} but the merged content of the files is {util.short(_plain(base[2]), 300)}; {what}'})
         # ---------------- 'key: !include f' (exactly one file, exactly one document) met by an older stage that already has content
         #                  at that key: the file's content is merged on its own first (its !append / !extend become plain lists, a
         #                  !notnew document that cannot stand alone fails), then placed under the key
@@ -360,6 +369,26 @@ def run(case):
             feats.append('variant_key_include_of_empty_file')
             if o[0] != 'ok' or o[1] != util.typed({'kept': 1, 'ek': {}}):
                 vio.append({'mech': 'empty-file-under-key', 'what': f"'ek: !include empty.yaml' (a file without documents) next to 'kept: 1' -> {util.short(o[1:], 300)}, expected {{'kept': 1, 'ek': {{}}}}"})
+            # nothing but includes of files without documents: as much as giving those files as sources (an empty config)
+            m16 = os.path.join(mdir, 'master16.yaml')
+            write(m16, '!include empty.yaml\n' if pos % 2 else '!include [empty.yaml, empty.yaml]\n')
+            o = observe(lambda: Config.build(m16))
+            oe = observe(lambda: Config.build(empty))
+            feats.append('variant_only_empty_includes')
+            if oe[0] == 'ok' and o[:2] != oe[:2]:
+                vio.append({'mech': 'only-empty-includes-differ', 'what': f"a file consisting of {open(m16).read()!r} (empty.yaml holds no document) -> {util.short(o[1:], 300)}; empty.yaml given as the source -> {util.short(oe[1:], 300)}"})
+            # a folder of the file's name next to the including file (look-up must fall through like for any other miss)
+            dd = os.path.join(root, 'tree', 'dd')
+            os.makedirs(os.path.join(dd, 'inc.yaml'), exist_ok=True)
+            write(os.path.join(cwd, 'inc.yaml'), utexts[0])
+            m17 = os.path.join(dd, 'master17.yaml')
+            write(m17, '!include inc.yaml\n')
+            o = observe(lambda: Config.build(m17))
+            refd = observe(lambda: Config.build(os.path.join(cwd, 'inc.yaml')))
+            feats.append('variant_folder_in_the_way')
+            if refd[0] == 'ok' and (o[0] != 'ok' or o[1] != refd[1]):
+                vio.append({'mech': 'lookup-stops-at-folder', 'what': f"'!include inc.yaml' from a folder where 'inc.yaml' is a directory, inc.yaml exists in the working directory: {util.short(o[1:], 300)}; expected the working directory to serve it: {util.short(refd[1], 200)}"})
+            os.remove(os.path.join(cwd, 'inc.yaml'))
             # a regular file in the way
             nd = os.path.join(root, 'tree', 'nd')
             os.makedirs(nd, exist_ok=True)
